@@ -12,6 +12,7 @@ var Registry = map[string]func() int{
 	"C13": C13,
 	"C09": C09,
 	"C10": C10,
+	"C11": C11,
 }
 
 func IDs() []string {
